@@ -3,4 +3,4 @@ Require Extraction.
 Require Import ExtrOcamlBasic.
 From OFGA Require Import Query.Expand.
 Extraction Language OCaml.
-Extraction "c30_model.ml" expand_top expand_rw check_tree valid_for_read ctx_tuple_err skeleton shape read_valid.
+Extraction "c30_model.ml" expand_top expand_rw check_tree valid_for_read ctx_tuple_err skeleton shape read_valid tuplesets_defined get_relation length.
